@@ -42,7 +42,7 @@ def r1(ctx):
     Eb = [e for e, _ in E]
     ok, hit = edge_returns_without(fa, none_t, Eb)
     vals = [t for _, _, t in ret_values_in_region(fa, none_t)]
-    nw = ok and vals and all(is_agg(t, "Err") and "NotWritable" in term_str(t) for t in vals)
+    nw = ok and vals and all(is_err_value(t, "NotWritable") for t in vals)
     ctx.check(P, rule, "no secret key: Err(NotWritable), nothing changed", nw, "None arm returns Err(NotWritable) with no effect site",
               "the no-secret-key arm at %s does not return Err(NotWritable) effect-free (effects: %s, returns: %s)" % (loc(fa, b), [loc(fa, h) for h in hit], [term_str(v)[:50] for v in vals]), [loc(fa, b)])
     bad = [(e, l) for e, l in E if not fa.dominates(some_t, e)]
